@@ -25,34 +25,31 @@ UNDECIDED = ['interplay of three-level flag inheritance with concrete data.']
 
 
 def r5(repo, run):
+    """!clear premerge on traces: every returning path fetched the node at the operator's own path from the accumulated tree, called
+    .clear() on it and returns that very node"""
+    from . import tr
+    from .. import pathbase
     fi = repo.func('ClearNode.ayns.on_premerge_impl')
     path, into = fi.params()[1], fi.params()[2]
-    fetch = [s for s in fi.node.body if isinstance(s, ast.Assign) and isinstance(s.value, ast.Call) and is_method_call(s.value, recv=into, member='get_node', ayns=True)]
-    if len(fetch) != 1:
-        raise AnalysisError('ClearNode.on_premerge_impl: `node = into.ayns.get_node(path)` not recognised')
-    var = fetch[0].targets[0].id
-    clears = [c for c in calls_in(fi.node) if is_method_call(c, recv=var, member='clear', ayns=False) and not c.args]
-    rets = [s for s in walk_no_nested(fi.node) if isinstance(s, ast.Return)]
-    probs = []
-    if not clears:
-        other = [unparse(c) for c in calls_in(fi.node) if unparse(recv_of(c) or ast.Name(id='')) == var]
-        probs.append('the fetched node is not emptied with %s.clear() (calls on it: %s)' % (var, other))
-    else:
-        from .. import cfg as cfgmod
-        from .common import cfg_of
-        g = cfg_of(fi)
-        seen, _ = cfgmod.must_have_seen(g, lambda c: is_method_call(c, recv=var, member='clear', ayns=False) and not c.args)
-        for r in rets:
-            rn = [x for x in g.nodes if x.ast is r]
-            if rn and not seen[rn[0].id]:
-                other = sorted({unparse(c)[:70] for c in calls_in(fi.node) if unparse(recv_of(c) or ast.Name(id='')) in (var, var + '.ayns') and not (is_method_call(c, recv=var, member='clear', ayns=False))})
-                probs.append('%s.clear() is not executed on every path to the return (other operations on the node: %s): the container is not always left empty' % (var, other))
-    if len(rets) != 1 or norm(rets[0].value) != var:
-        probs.append('does not return the fetched node itself (kind must be preserved)')
-    if norm(fetch[0].value.args[0]) != path:
-        probs.append('fetches %s instead of its own path' % norm(fetch[0].value.args[0]))
+    paths = [p for p in tr.paths_of(repo, fi, no_inline=set(pathbase.NI), follow_exceptions=False) if p.status == 'return']
+    if not paths:
+        raise AnalysisError('ClearNode.on_premerge_impl: no returning path')
+    probs = set()
+    for p in paths:
+        fetch = [e for e in p.events if e.kind == 'call' and e.attr in ('get_node', 'get_first_not_missing_node') and e.recv is not None and e.recv.text in (into + '.ayns', into)]
+        if len(fetch) != 1:
+            raise AnalysisError('ClearNode.on_premerge_impl: `node = into.ayns.get_node(path)` not recognised')
+        F = fetch[0].result.text
+        if not fetch[0].args or fetch[0].args[0].text != path:
+            probs.add('fetches %s instead of its own path' % (fetch[0].args[0].text[:40] if fetch[0].args else None))
+        clears = [e for e in p.events if e.kind == 'call' and e.attr == 'clear' and e.recv is not None and e.recv.text == F and not e.args]
+        if not clears:
+            other = sorted({e.callee[len(F):][:40] for e in p.events if e.kind == 'call' and e.recv is not None and e.recv.text.startswith(F)})
+            probs.add('the fetched node is not emptied with .clear() on every path to the return (other operations on the node: %s): the container is not always left empty' % other)
+        if p.ret is None or p.ret.text != F:
+            probs.add('does not return the fetched node itself (kind must be preserved)')
     if probs:
-        run.violation('C04.R5', fi, '!clear premerge', '; '.join(probs))
+        run.violation('C04.R5', fi, '!clear premerge', '; '.join(sorted(probs)))
     else:
         run.ok('C04.R5', fi, '!clear: node = into.get_node(path); node.clear(); return node')
     for cls in ('ConfigDict', 'ConfigList'):
